@@ -16,7 +16,7 @@ sed -i "s#target-dir = .*#target-dir = \"$H/target\"#" $H/harness/.cargo/config.
 export TCMC_OUT_DIR=$H/out TCMC_SUBJECT_DIR=$WT
 cd /verif
 for id in "$@"; do
-  out=$($H/target/release/tcmc "$id" --tier "$tier" 2>&1); code=$?
+  out=$($H/target/release/tcmc "$id" --tier "$tier" $TCMC_EXTRA_ARGS 2>&1); code=$?; [ -n "$TCMC_KEEP_LOG" ] && echo "$out" > /dev/shm/trylog-$seed-$id.txt
   echo "== seed=$seed check=$id tier=$tier exit=$code"
   echo "$out" | grep -E "VIOLATION|KNOWN-FINDING|MACHINERY|^violation|^OK" | cut -c1-300 | head -8
 done
